@@ -27,6 +27,9 @@ pub struct Case {
     pub cut: Option<usize>,
     /// schedules tried per cut besides the slice run
     pub variants: Vec<(Option<usize>, RScript)>,
+    /// Some(k): the size limit is set to the largest declared size in the document plus k (everything stays within
+    /// the limit, the largest element only just); None: the default limit
+    pub limit_slack: Option<usize>,
     /// seed for per-cut schedule draws when `variants` is empty
     pub vseed: u64,
 }
@@ -108,15 +111,15 @@ fn eof_equal(want: &ErrV, got: &ErrV) -> bool {
     }
 }
 
-fn check_cut(spec: &SpecTable, e: &Encoded, cut: usize, cap: Option<usize>, script: &RScript, st: &mut Stats) -> Result<(), Fail> {
+fn check_cut(spec: &SpecTable, e: &Encoded, cut: usize, cap: Option<usize>, limit: Option<usize>, script: &RScript, st: &mut Stats) -> Result<(), Fail> {
     let input = Arc::new(e.bytes[..cut].to_vec());
-    let cfg = IterCfg { capacity: cap, ..Default::default() };
+    let cfg = IterCfg { capacity: cap, max_size: limit.map_or(crate::harness::MaxSz::Default, crate::harness::MaxSz::Limit), ..Default::default() };
     let tr = run_reader(spec, &ReaderSetup { input, virtual_tail: 0, cfg: &cfg, script, driver: &Driver::UntilEnd { extra: 0 }, max_steps: 4 * cut + 64, keep_read_log: false });
     st.add("api_calls", tr.api_calls as u64);
     st.add("read_calls", tr.read_calls as u64);
     st.inc("truncations_injected");
     let exp = expectation(e, cut);
-    let ctx = |tr: &crate::harness::RTrace| format!("cut at {} of {} bytes, capacity {:?}, script {}\n trace: {}", cut, e.bytes.len(), cap, script.to_j(), tr.short(60));
+    let ctx = |tr: &crate::harness::RTrace| format!("cut at {} of {} bytes, capacity {:?}, size limit {:?}, script {}\n trace: {}", cut, e.bytes.len(), cap, limit, script.to_j(), tr.short(60));
     if let Some(p) = tr.panic() {
         fail!("panic", "panicked: {}; {}", p, ctx(&tr));
     }
@@ -182,7 +185,7 @@ impl Check for C12 {
         o.pay.max_len = *rng.pick(&[8usize, 24, 24, 130]);
         o.max_nodes = *rng.pick(&[2usize, 5, 12, 25]);
         let doc = gen::gen_doc(&mut rng, &spec, &o);
-        Case { spec, doc, cut: None, variants: vec![], vseed: rng.next() }
+        Case { spec, doc, cut: None, variants: vec![], vseed: rng.next(), limit_slack: if rng.chance(1, 3) { Some(rng.range(0, 2)) } else { None } }
     }
 
     fn exec(&self, c: &Case, st: &mut Stats) -> Result<ExecOk, Fail> {
@@ -196,17 +199,21 @@ impl Check for C12 {
         st.add("elements", e.layout.elems.len() as u64);
         let mut vr = Rng::new(c.vseed);
         let bounds = e.layout.boundaries(len);
+        let limit = c.limit_slack.map(|k| e.layout.elems.iter().filter_map(|x| x.size).max().unwrap_or(0) as usize + k);
+        if limit.is_some() {
+            st.inc("documents_read_with_a_tight_size_limit");
+        }
         for cut in &cuts {
-            check_cut(&c.spec, &e, *cut, None, &RScript::whole(), st).map_err(|f| Fail::new(&f.clause, format!("[slice run] {}", f.detail)))?;
+            check_cut(&c.spec, &e, *cut, None, limit, &RScript::whole(), st).map_err(|f| Fail::new(&f.clause, format!("[slice run] {}", f.detail)))?;
             if c.variants.is_empty() {
                 for _ in 0..2 {
                     let cap = io::gen_capacity(&mut vr, *cut);
                     let script = io::gen_rscript(&mut vr, *cut, &bounds);
-                    check_cut(&c.spec, &e, *cut, cap, &script, st)?;
+                    check_cut(&c.spec, &e, *cut, cap, limit, &script, st)?;
                 }
             } else {
                 for (cap, script) in &c.variants {
-                    check_cut(&c.spec, &e, *cut, *cap, script, st)?;
+                    check_cut(&c.spec, &e, *cut, *cap, limit, script, st)?;
                 }
             }
         }
@@ -229,6 +236,7 @@ impl Check for C12 {
             "doc": enc::doc_to_j(&c.doc),
             "cut": c.cut,
             "variants": c.variants.iter().map(|(cap, s)| json!({"capacity": cap, "script": s.to_j()})).collect::<Vec<_>>(),
+            "limit_slack": c.limit_slack,
             "vseed": c.vseed,
             "encoded": crate::val::bytes_to_j(&enc::encode(&c.doc).bytes),
         })
@@ -244,6 +252,7 @@ impl Check for C12 {
             doc: enc::doc_from_j(j.get("doc").ok_or("doc")?)?,
             cut: j.get("cut").and_then(|c| c.as_u64()).map(|c| c as usize),
             variants,
+            limit_slack: j.get("limit_slack").and_then(|v| v.as_u64()).map(|v| v as usize),
             vseed: j.get("vseed").and_then(|v| v.as_u64()).unwrap_or(0),
         })
     }
@@ -266,6 +275,9 @@ impl Check for C12 {
                 }
             }
             return v;
+        }
+        if c.limit_slack.is_some() {
+            v.push(Case { limit_slack: None, ..c.clone() });
         }
         if c.variants.len() == 1 {
             let (cap, s) = &c.variants[0];
